@@ -16,7 +16,11 @@ MANIFEST = dict(
              "exactly, the others (thirds, tenths) are validated by TLC against the exact rational within 2^-48 of the operand "
              "magnitude using multi-limb integer arithmetic. Seeded parameter sets rendered by TLC, random call interleavings "
              "and mutated/non-finite descriptions (no fault, answers after reset and in a clone equal those after creation) are "
-             "recorded from the real code and validated by TLC.",
+             "recorded from the real code and validated by TLC. Description texts are generated with decoration (leading, repeated, "
+             "trailing white space: blank, tab, newline, CR-LF; white space around ( : ) and behind profile keywords) for every "
+             "text-described source; decoration leaves the denoted sequence unchanged (text behind the last number of a text "
+             "iterator may be served as one more position without value); empty, blank-only and separator-only descriptions "
+             "are replayed for faults and replay consistency.",
         note="Trusted: TLC, drv/iter.c (classes of return values, doubles logged as exact limbs). Not decided: the rounding "
              "direction of single operations, range() counts for steps that are not exactly representable, the file iterator, "
              "the C++ iterator templates; a text iterator is only advanced after its element was read (the element is delimited "
@@ -91,6 +95,8 @@ def match(exp, obs, step=None, rec=None, prev=None):
     for k, v in exp.items():
         if k not in obs:
             return "missing observation %r" % k
+        if v == "any":      # the statement does not decide this answer (a fault is still a mismatch)
+            continue
         if k in ("d", "vals") and v == [] and exp.get("ret", "value") == "value":
             continue
         if obs[k] != v:
@@ -138,7 +144,7 @@ def signature(beh, i, rec, why):
     what = "rejected"
     if exp:
         for k, v in exp.items():
-            if k in ("d", "vals") and v == []:
+            if (k in ("d", "vals") and v == []) or v == "any":
                 continue
             if obs.get(k) != v:
                 what = "%s=%s" % (k, obs.get(k) if k == "ret" else "differs")
@@ -275,6 +281,20 @@ def rand_source(rng):
     return src
 
 
+NWS = 8     # number of white space texts of the specification (Iter!WS)
+
+
+def rand_deco(rng, src):
+    """decorate the description of a text-described source: indices into Iter!WS (leading, between, trailing, around ( : ))"""
+    described = (src.get("via") in ("desc", "profile", "iterarg", "string", "values") or src.get("kind") == "poly")
+    if not described or rng.random() < 0.5:
+        return src
+    if src.get("kind") in ("linear", "range") and src.get("via") == "desc" and src.get("style") == 1:
+        src["style"] = 0
+    src["deco"] = [rng.randrange(1, NWS + 1), rng.randrange(2, NWS + 1), rng.randrange(1, NWS + 1), rng.randrange(1, NWS + 1)]
+    return src
+
+
 def random_calls(rng, textlike, n, consumable=True):
     """a random interleaving on the source and its clones (calls only)"""
     calls = []
@@ -350,7 +370,7 @@ def run(tier):
     exe = build()
 
     # random parameter sets for binding B (rendered and scripted by TLC)
-    srcs = [dict(rand_source(ck.rng), explore=False) for _ in range(cfg["nsrc"])]
+    srcs = [dict(rand_deco(ck.rng, rand_source(ck.rng)), explore=False) for _ in range(cfg["nsrc"])]
     spath = vlib.ensure(vlib.os.path.join(vlib.WORK, "traces")) + "/C19-sources-%d.ndjson" % vlib.os.getpid()
     with open(spath, "w") as f:
         for s in srcs:
@@ -383,6 +403,16 @@ def run(tier):
     behs, recs = run_batched(exe, behs)
     mms = vlib.compare(behs, recs, match)
     by = vlib.group_records(recs)
+    # descriptions the statement does not decide (separators only, blank value list): the recorded run is judged by the
+    # trace specification (no fault; the same answers after reset and in a clone)
+    und = [b for b, beh in enumerate(behs) if src_of(beh).get("kind") == "unknown"]
+    deco = [b for b, beh in enumerate(behs) if "deco" in src_of(beh)]
+    ck.notes["decorated_descriptions_replayed"] = len(deco)
+    ck.notes["undecided_descriptions_replayed"] = len(und)
+    if und:
+        sub = [behs[b] for b in und]
+        subrecs = [dict(r, b=j) for j, b in enumerate(und) for r in by.get(b, [])]
+        ck.notes["undecided_events_validated"] = validate(ck, sub, subrecs, "Trace_Iter-U", "A(undecided)")
     nt = set()
     for b, beh in enumerate(behs):
         if nontrivial_beh(by.get(b, [])):
@@ -425,8 +455,8 @@ def run(tier):
     muts = [unknown_behaviour(rng, rng.choice(creates)["arg"]) for _ in range(cfg["nmut"])] if creates else []
     hist, recs_h = run_batched(exe, hist)
     muts, recs_m = run_batched(exe, muts)
-    nev = validate(ck, hist, recs_h, "Trace_Iter-B", "B(trace)")
-    nev += validate(ck, muts, recs_m, "Trace_Iter-M", "B(mutated)")
+    nev = validate(ck, hist, recs_h, "Trace_Iter-B", "B(trace)", max_rounds=20)   # one rejected behaviour per round: room for
+    nev += validate(ck, muts, recs_m, "Trace_Iter-M", "B(mutated)", max_rounds=12)  # several defects at once
     byh = vlib.group_records(recs_h)
     for b, beh in enumerate(hist):
         if nontrivial_beh(byh.get(b, [])):
